@@ -1174,9 +1174,8 @@ End Proofs.
 
 Module Candle.
   (* raw unit mode: colours are four integers, conversion is the identity, standardising clamps *)
-  Definition colour := (Z * Z * Z * Z)%type.
-  Definition clamp (c : colour) : colour :=
-    let '(a, b, c', d) := c in (clamp16 a, clamp16 b, clamp16 c', clamp16 d).
+  Definition colour := zcolour.
+  Definition clamp := standardize_raw_z.
   Definition conv_id (m : mode) (c : colour) : colour := c.
   Definition switch_id (a b : mode) (c : colour) : colour := c.
   Definition black : colour := (0, 0, 0, 0).
@@ -1218,6 +1217,12 @@ Module Candle.
 
   Example x3_clamped : x3 = (30000, 65535, 0, 2700).
   Proof. reflexivity. Qed.
+
+  Lemma standardize_raw_z_idempotent c : standardize_raw_z (standardize_raw_z c) = standardize_raw_z c.
+  Proof.
+    assert (I : forall z, clamp16 (clamp16 z) = clamp16 z) by (intros z; unfold clamp16; lia).
+    destruct c as [[[a b] c] d]. unfold standardize_raw_z. rewrite !I. reflexivity.
+  Qed.
 
   (* the hypotheses of the out-of-domain theorems are satisfiable, too *)
   Example row_6_aborts :
